@@ -1516,8 +1516,9 @@ func (e *asEngine) stashScenarios(c *Ctx) {
 				if hooks != 0 && dec != "1" && dec != "2" {
 					continue
 				}
-				for _, how := range []string{"0", "1", "2", "3"} { // unstash argument afterwards
-					if !c.Thorough() && c.Rng.Chance(1, 3) {
+				must := c.Rng.Intn(4)                               // every (decision, hooks) cell is exercised at least once, whatever the seed
+				for hi, how := range []string{"0", "1", "2", "3"} { // unstash argument afterwards
+					if !c.Thorough() && hi != must && c.Rng.Chance(1, 3) {
 						continue
 					}
 					sup := dec
